@@ -275,9 +275,15 @@ def run(ctx):
              dict(entry="filtered", cs="astronomical", depth=2, fmt="npy", kind="scalar", mode="update", regions=[(1.0, 2.0)], accept=sparse, par=1),
              dict(entry="filtered", cs="astronomical", depth=2, fmt="fits", kind="scalar", mode="update", regions=None, accept=sparse2, par=1),
              dict(entry="toast_base", cs="planetary", depth=1, fmt="npy", kind="scalar", mode="clobber", regions=None, accept=None, par=1),
+             # clobbering re-sample into a directory that already holds tiles: tiles the second sampler leaves entirely
+             # undefined must disappear, the others must hold only the second sampler's values
+             dict(entry="sample_layer", cs="astronomical", depth=2, fmt="npy", kind="scalar", mode="clobber", regions=[(0, 7.0), (1.0, 2.0)], accept=None, par=1),
+             dict(entry="sample_layer", cs="planetary", depth=2, fmt="fits", kind="scalar", mode="clobber", regions=[(0, 7.0), (4.0, 5.5)], accept=None, par="sim2"),
              dict(entry="sample_layer", cs="astronomical", depth=1, fmt="fits", kind="scalar", mode="clobber", regions=None, accept=None, par="sim2"),
              dict(entry="filtered", cs="astronomical", depth=2, fmt="npy", kind="scalar", mode="update", regions=[(0, B), (B, 7.0)], accept=sparse, par="sim3"),
-             dict(entry="sample_layer", cs="planetary", depth=2, fmt="npy", kind="scalar", mode="clobber", regions=None, accept=None, par="real3")]
+             dict(entry="sample_layer", cs="planetary", depth=2, fmt="npy", kind="scalar", mode="clobber", regions=None, accept=None, par="real3"),
+             dict(entry="sample_layer", cs="planetary", depth=0, fmt="npy", kind="scalar", mode="clobber", regions=None, accept=None, par="sim2"),
+             dict(entry="sample_layer", cs="astronomical", depth=0, fmt="fits", kind="scalar", mode="clobber", regions=None, accept=None, par="real2")]
     if not q:
         runs += [dict(entry="sample_layer", cs="astronomical", depth=3, fmt="fits", kind="scalar", mode="clobber", regions=None, accept=None, par="real4"),
                  dict(entry="sample_layer", cs="astronomical", depth=0, fmt="fits", kind="scalar", mode="clobber", regions=None, accept=None, par="sim2"),
